@@ -1,6 +1,7 @@
 import FsutilModel.Varint
 import FsutilModel.Model.Wire
 import FsutilModel.WirePacket
+import FsutilModel.WireSafe
 /-! # C20 — Wire encoding and framing -/
 namespace Fsm.C20
 open W
@@ -67,6 +68,16 @@ distinguish from `none`, as in protobuf). -/
 theorem packet_roundtrip (p : PPacket) (hwf : p.WF) (hlen : (marshalPacket p).length < two63) :
     unmarshalPacket (marshalPacket p) = .ok p :=
   W.packet_roundtrip p hwf hlen
+
+/-- **Never panics on arbitrary bytes** (model level): in the transcription every index expression `dAtA[i]` and every
+slice expression `dAtA[a:b]` is bounds-checked with the distinguished outcome `panic`; for EVERY byte string the Stat
+decoder returns a value or one of the decoder's own errors, never `panic` — the generated bounds checks are sufficient. -/
+theorem stat_decoder_never_panics (bs : List Nat) : unmarshalStat bs ≠ .error .panic :=
+  W.unmarshalStat_never_panics bs
+
+/-- the same for the Packet decoder, including the nested Stat decoded from its own sub-slice -/
+theorem packet_decoder_never_panics (bs : List Nat) : unmarshalPacket bs ≠ .error .panic :=
+  W.unmarshalPacket_never_panics bs
 
 /-- non-vacuity: a value with a negative size, a maximal mode, an empty xattr value and a non-UTF-8 name … -/
 def exStat : PStat :=
